@@ -20,6 +20,8 @@ lines from the real crate.
 * `<T>`: an entry id, `R<unit>` (the root DIE of that unit), `O` (out of bounds of the unit / the
   section), `M<id>` (one byte into the DIE `id`).
 * `<required>`: `,`-separated ids passed to `require_entry` (`-` = none).
+* optional 8th argument `<roots>`: `;`-separated `unit=attrs`, reference attributes on the root DIE
+  of that unit (same attribute grammar).
 
 The Model lays the forest out at synthetic offsets (unit header 11 bytes, root DIE 4 bytes, every
 other DIE 8 bytes): only the order of offsets, the unit bounds and "is this the start of a DIE"
@@ -148,10 +150,11 @@ def depthOf (es : List REntry) : Nat → Nat → Nat
 structure Forest where
   layout : Layout
   units : List (UnitHdr × List Entry)
+  rootAttrs : List (List AttrRef)
   /-- entry id of a section offset -/
   idOf : List (Nat × Nat)
 
-def build (nunits : Nat) (res : List REntry) (req : List Nat) : Option Forest := do
+def build (nunits : Nat) (res : List REntry) (req : List Nat) (roots : String := "-") : Option Forest := do
   -- ids must be 0..n-1 in order, units non-decreasing, parents earlier and in the same unit
   let n := res.length
   if !(res.zipIdx.all fun (e, i) => e.id == i && decide (e.unit < nunits)
@@ -175,7 +178,16 @@ def build (nunits : Nat) (res : List REntry) (req : List Nat) : Option Forest :=
               required := req.contains e.id } : Entry)
     some (h, es)
   let idOf ← res.mapM fun e => do let v ← layout.secVal (.ent e.id); some (v, e.id)
-  some ⟨layout, units, idOf⟩
+  -- `u=attrs;u=attrs`: reference attributes of unit root DIEs
+  let rootSpecs ← (if roots == "-" then some [] else (roots.splitOn ";").mapM fun s =>
+    match s.splitOn "=" with
+    | [u, attrs] => do let u ← u.toNat?; if u < nunits then some (u, attrs) else none
+    | _ => none)
+  let rootAttrs ← (List.range nunits).mapM fun u =>
+    match rootSpecs.lookup u with
+    | some attrs => parseAttrs layout u attrs
+    | none => some []
+  some ⟨layout, units, rootAttrs, idOf⟩
 
 def renderUnit (f : Forest) (es : List (Off × Option Off)) : String :=
   if es.isEmpty then "-" else
@@ -189,20 +201,36 @@ def render (f : Forest) : Outcome → String
   | .panic w => "panic " ++ w
   | .diverge => "diverge"
 
+/-- guards shared with the Rust side (neighbourhood searches substitute boundary numbers) -/
+def okParams (ver asz nunits : Nat) (entries : String) : Bool :=
+  decide (2 ≤ ver) && decide (ver ≤ 5) && (asz == 1 || asz == 2 || asz == 4 || asz == 8) &&
+    decide (nunits ≤ 64) && decide (entries.utf8ByteSize ≤ 65536)
+
 def handle (op : String) (args : List String) : Option String :=
   match op, args with
   | "flt-conv", [mode, ver, fmt, asz, nunits, entries, required] => do
     let m ← mode? mode
-    let _ ← ver.toNat?; let _ ← format? fmt; let _ ← asz.toNat?
+    let ver ← ver.toNat?; let _ ← format? fmt; let asz ← asz.toNat?
     let nunits ← nunits.toNat?
+    if !okParams ver asz nunits entries then none
     let res ← (if entries == "-" then some [] else (entries.splitOn ";").mapM parseREntry)
     let req ← parseIds required
     let f ← build nunits res req
     pure (render f (run m f.units))
+  | "flt-conv", [mode, ver, fmt, asz, nunits, entries, required, roots] => do
+    let m ← mode? mode
+    let ver ← ver.toNat?; let _ ← format? fmt; let asz ← asz.toNat?
+    let nunits ← nunits.toNat?
+    if !okParams ver asz nunits entries then none
+    let res ← (if entries == "-" then some [] else (entries.splitOn ";").mapM parseREntry)
+    let req ← parseIds required
+    let f ← build nunits res req roots
+    pure (render f (run m f.units f.rootAttrs))
   | "flt-split", [mode, ver, fmt, asz, nunits, entries, required] => do
     let m ← mode? mode
-    let _ ← ver.toNat?; let _ ← format? fmt; let _ ← asz.toNat?
+    let ver ← ver.toNat?; let _ ← format? fmt; let asz ← asz.toNat?
     let nunits ← nunits.toNat?
+    if !okParams ver asz nunits entries then none
     if nunits != 1 then none
     let res ← (if entries == "-" then some [] else (entries.splitOn ";").mapM parseREntry)
     let req ← parseIds required
